@@ -4,6 +4,7 @@ from classy_blocks.grading.chop import Chop
 from classy_blocks.items.wires.manager import WireChopManager, WireManagerBase, WirePropagateManager
 from classy_blocks.items.wires.wire import Wire
 from classy_blocks.types import AxisType
+from classy_blocks.util.tools import OrderedSet
 
 # Edge grading
 # Axis holds 4 wires, that is, edges that are defined along the same direction.
@@ -41,7 +42,7 @@ class Axis:
         self.wires: WireManagerBase = WirePropagateManager(wires)
 
         # will be added as blocks are added to mesh
-        self.neighbours: Set[Axis] = set()
+        self.neighbours: Set[Axis] = OrderedSet()
 
     def add_neighbour(self, axis: "Axis") -> None:
         """Adds an 'axis' from another block if it shares at least one wire"""
